@@ -66,17 +66,27 @@ def names(draw):
 
 
 @st.composite
-def history(draw, min_msgs=4, max_msgs=14, sources=(1, 2, 3, 9), claims=True, single_keys=SINGLE_KEYS, fast_keys=FAST_KEYS, junk=False, name_pool=None, twins=False):
+def history(draw, min_msgs=4, max_msgs=14, sources=(1, 2, 3, 9), claims=True, single_keys=SINGLE_KEYS, fast_keys=FAST_KEYS, junk=False, name_pool=None, twins=False, time_passes=False):
     """List of frame items with fast-packet frames of different messages interleaved."""
     database = canboat.db()
     n = draw(st.integers(min_msgs, max_msgs))
     msgs = []
     seqs = {}
     for mi in range(n):
-        kinds = ["single", "single", "fast"] + (["claim"] if claims else []) + (["junk"] if junk else []) + (["twin"] if twins else [])
+        kinds = ["single", "single", "fast"] + (["claim"] if claims else []) + (["junk"] if junk else []) + (["twin"] if twins else []) \
+            + (["warp"] if time_passes else []) + (["commanded"] if claims and any(m[0]["kind"] == "claim" for m in msgs) else [])
         kind = draw(st.sampled_from(kinds))
         src = draw(st.sampled_from(sources))
-        if kind == "claim":
+        if kind == "commanded":
+            # ISO Commanded Address (PGN 65240, delivered pre-assembled): a device that has claimed - identified by its NAME - is told to
+            # move to another address
+            nm = draw(st.sampled_from([m[0]["name"] for m in msgs if m[0]["kind"] == "claim"]))
+            msgs.append([{"kind": "combined", "pgn": 65240, "src": src, "dest": 255, "data": nm.to_bytes(8, "little") + bytes([draw(st.sampled_from(sources))]),
+                          "msg": mi}])
+        elif kind == "warp":
+            # the bus is quiet for a while (possibly in the middle of fast-packet messages): real time passes
+            msgs.append([{"kind": "warp", "pgn": 0, "src": 0, "dest": 0, "data": b"", "msg": mi, "seconds": draw(st.sampled_from([1.5, 31.0, 61.0, 700.0]))}])
+        elif kind == "claim":
             nm = draw(names()) if not name_pool else draw(st.sampled_from(name_pool))
             msgs.append([{"kind": "claim", "pgn": 60928, "src": src, "dest": 255, "data": nm.to_bytes(8, "little"), "msg": mi, "name": nm}])
         elif kind == "single":
@@ -183,6 +193,14 @@ def render(item, fmt="ebyte"):
 
 
 def feed(dec, item, fmt="ebyte"):
+    if item["kind"] == "warp":
+        from .common import CLOCK
+        CLOCK.warp(item["seconds"])
+        return None
+    if item["kind"] == "combined":
+        d = item["data"]
+        return dec.decode_basic_string("2024-01-01-00:00:00.000,%d,%d,%d,%d,%d,%s" % (item.get("prio", 3), item["pgn"], item["src"], item["dest"], len(d),
+                                                                                    ",".join("%02x" % b for b in d)), already_combined=True)
     pk = render(item, fmt)
     if fmt == "ebyte":
         return dec.decode_tcp(pk)
